@@ -1,5 +1,5 @@
 """C04 -- refinement never worsens the fit and respects bounds, symmetry and the box."""
-from contracts import refine as rf, render as rd, perturbed as pt
+from contracts import parallel as pl, refine as rf, render as rd, perturbed as pt
 from pyvc.bounded import ContractSampling
 
 LEVEL = "other"
@@ -14,6 +14,8 @@ LEVEL_TEXT = ("refine_droplet is verified as a wrapper around an ASSUMED optimis
 LEVEL_NOTE = ("ASSUMED: scipy.optimize.least_squares (feasible start required; result within bounds; cost non-increasing), binary_dilation is "
               "extensive, structured<->unstructured record conversion, A-PDE grid.transform/normalize_point/coordinate_constraints; A-FP; "
               "non-emptiness of the fit region is not proved; convergence/accuracy is C05 (not applicable)")
-CONTRACTS = [rf.RefineDroplet().ident]
+# refine_droplets (the plural entry point used by locate_droplets) must hand every candidate to refine_droplet with ALL of the caller's options, in
+# both of its branches (serial / worker processes): its branch contract from C15 is part of C04
+CONTRACTS = [rf.RefineDroplet().ident, pl.RefineDropletsBranches().ident]
 LEMMAS = []
-BOUNDED = [ContractSampling("refinement-on-real-images", CONTRACTS, "2 (quick) / 10 (thorough) real fits per case (9 candidate kinds x fixed/auto levels x fitted levels on/off): wrapped least_squares observes start/bounds/costs; clean, noisy and rescaled images, candidates a period outside the box, cylindrical z-range without 0, a brighter droplet elsewhere for automatic levels; independent deviation measure over the fit region")]
+BOUNDED = [ContractSampling("refinement-on-real-images", CONTRACTS[:1], "2 (quick) / 10 (thorough) real fits per case (9 candidate kinds x fixed/auto levels x fitted levels on/off): wrapped least_squares observes start/bounds/costs; clean, noisy and rescaled images, candidates a period outside the box, cylindrical z-range without 0, a brighter droplet elsewhere for automatic levels; independent deviation measure over the fit region")]
